@@ -72,6 +72,8 @@ def execute(scn: dict, prop: str, aspects, on_step=None, send_strict=(1,), keep=
         w = GwWorld(cfg, scn.get("tapes"))
         clock = w.clock
         now = w.now
+        if cfg.get("link") == "tcp":
+            res.probes["full_stack_tcp"] += 1
         model = Model(metric=cfg.get("metric", True), version=cfg.get("pin"))
         step_now = {"t": now()}
         model.local_epoch = lambda: step_now["t"] + utc_offset(cfg, step_now["t"])
@@ -89,6 +91,13 @@ def execute(scn: dict, prop: str, aspects, on_step=None, send_strict=(1,), keep=
                     disc = model.check_send(tuple(op[1]), op[2] if len(op) > 2 else True, obs, strict_cmds=send_strict)
                 elif kind == "relisten":
                     w.relisten()
+                elif kind == "reenter":
+                    # same Gateway object, new session: nothing the properties talk about may be forgotten
+                    if cfg.get("link", "sim") == "sim":
+                        err = w.reenter()
+                        res.probes["context_reentered"] += 1
+                        if err:
+                            disc.append(("outcome", f"reenter-raised:{err}", str(op)))
                 elif kind == "reboot":
                     n = op[1]
                     if n in w.gateway.nodes:
